@@ -32,6 +32,8 @@ def run(ctx):
     nodes = rep.extra.get("nodes", 0)
     for d in ctx.pmap(c03.shard_history, [(ctx.tier, ctx.seed, i) for i in range(4)]):
         rep.merge(d, "history_independence")
+    # a decoding that depends on what was decoded before cannot be consistent between the modes for every history
+    rep.fail = {("C20:decoding_depends_on_history" if k == "C03:decoding_depends_on_history" else k): v for k, v in rep.fail.items()}
     rep.fail = {k: v for k, v in rep.fail.items() if k.startswith("C20:") or k.startswith("harness:")}
     ref = D.Ref()
     acc = Acc(seed=ctx.seed)
@@ -56,6 +58,42 @@ def run(ctx):
         for n in got:
             if n not in produced:
                 acc.failure("C20:config_name_maps_to_a_name_the_decoder_never_produces", dict(case, name=n), "%r -> %r" % (name, got))
+    # the mapping of a name is a function of the name: after thousands of other accepted lookups on the same keymap object (and on a
+    # second KeyMap object) every name must still map to what it mapped to at first
+    from curtsies.configfile_keynames import KeyMap
+
+    first = {}
+    for name in config_names():
+        try:
+            first[name] = keymap[name]
+        except Exception as ex:  # noqa
+            first[name] = ("exc", type(ex).__name__)
+    flood = ["M-" + a + b for a in string.ascii_lowercase + string.digits for b in string.ascii_lowercase + "-+"] + ["C-" + a + b for a in "abcxyz" for b in string.ascii_lowercase]
+    flood += ["F%s%d" % ("0" * z, i) for z in range(1, 6) for i in range(1, 40)] + ["F%d" % i for i in range(13, 400)]
+    other = KeyMap()
+    for km, label in ((keymap, "the module's keymap object"), (other, "a second KeyMap object")):
+        seen = {}
+        for rnd in range(2):
+            for name in flood:
+                try:
+                    r = km[name]
+                except Exception as ex:  # noqa
+                    r = ("exc", type(ex).__name__)
+                acc.transitions += 1
+                if seen.setdefault(name, r) != r:
+                    acc.failure("C20:config_name_mapping_depends_on_history", {"config_key": name, "keymap": label}, "first %r, later %r" % (seen[name], r))
+                    break
+        for order in (config_names(), config_names()[::-1]):
+            for name in order:
+                case = {"config_key": name, "keymap": label, "after_other_lookups": len(flood) * 2}
+                acc.case(True, key=("cfg_again", label, name, order[0]), sample=case)
+                acc.transitions += 1
+                try:
+                    r = km[name]
+                except Exception as ex:  # noqa
+                    r = ("exc", type(ex).__name__)
+                if r != first[name]:
+                    acc.failure("C20:config_name_mapping_depends_on_history", case, "at first %r, now %r" % (first[name], r))
     acc.case(True, key=("cfg", ""))
     try:
         if keymap[""] != ():
